@@ -32,7 +32,7 @@ def kernel_jobs(tier):
         ar = lut_arity(name)
         if ar == 1: Ks, caps = wave.K_combos(1, 4), (4, 8)
         elif ar == 2: Ks, caps = wave.K_combos(2, 2 if tier == 'quick' else 3), (4, 8)
-        elif ar == 3: Ks, caps = (wave.K_combos(3, 1) if tier == 'quick' else wave.K_combos(3, 2)), (4,)
+        elif ar == 3: Ks, caps = (wave.K_combos(3, 1) if tier == 'quick' else wave.K_combos(3, 2, total=4)), (4,)
         else: Ks, caps = (wave.K_combos(4, 1, exact=True) if tier == 'quick' else wave.K_combos(4, 1)), (4,)
         for K in Ks:
             for inits in itertools.product((0, 1), repeat=ar):
@@ -281,7 +281,7 @@ def run(tier, seed):
         'capture_paths': int(rep.counts['capture_paths']), 'accumulation_paths': int(rep.counts['acc_paths']), 'e2e_paths': int(rep.counts['e2e_paths']),
         'explanation': 'states = completed symbolic paths through _wave_eval (product run vs capacity 64), wave_capture_cpu/gpu (via c_to_s) and whole propagations with symbolic accumulation weights',
         'functions_encoded': common.fn_sha(wave_sim._wave_eval, wave_sim.wave_capture_cpu, wave_sim.level_eval_cpu, WaveSim.c_to_s, WaveSimCuda.c_to_s),
-        'bounds': {'K per input': {'arity1': 4, 'arity2': 2 if tier == 'quick' else 3, 'arity3': 1 if tier == 'quick' else 2, 'arity4': 1}, 'caps': [4, 8], 'capture entries': '<= 3 (quick) / 4 (thorough)', 'weights': '[-1000,1000] symbolic'},
+        'bounds': {'K per input': {'arity1': 4, 'arity2': 2 if tier == 'quick' else 3, 'arity3': 1 if tier == 'quick' else '2 (<= 4 overall)', 'arity4': 1}, 'caps': [4, 8], 'capture entries': '<= 3 (quick) / 4 (thorough)', 'weights': '[-1000,1000] symbolic'},
         'exhaustive': False,
         'summary': f'{len(J)} kernel jobs, {rep.counts["paths"]} paths, {rep.counts["obligations"]} obligations, {rep.counts["discharged"]} discharged',
     }
